@@ -11,6 +11,8 @@ package c03
 import (
 	"bytes"
 	"context"
+	"encoding/binary"
+	"encoding/hex"
 	"encoding/json"
 	"fmt"
 	"strings"
@@ -375,6 +377,13 @@ func TestCheck(t *testing.T) {
 	r.Rule(fmt.Sprintf("generated chains; on every block up to 12 single-fault mutations from a catalogue of %d entries (each tied to one spec assertion: header, outer signature under wrong key/domain/version/genesis root, randao, attestation data/bits/signature, attester and proposer slashing shape and signatures, deposit count/proof/order, exit epoch/key/domain/index/duplicate, BLS change, sync aggregate, payload parent/randao/timestamp/withdrawals/blobs, list over limit, duplicated operations) re-rooted and re-signed so the targeted check is reached, plus byte-level corruption (bit flips, truncation, splice, 4-byte overwrite) of the block encoding. non-trivial = the reference rejects the mutated block with a message of the targeted assertion family; distinct key = (fork, mutation id)", len(sim.Catalogue)))
 	r.Assume("refspec is the spec; it decides accept/reject", "which error the library returns is irrelevant", "multi-fault blocks are only reached by the byte-level generator")
 	replay := func(raw json.RawMessage) *report.Failure {
+		var fb FuzzBlockCase
+		if json.Unmarshal(raw, &fb) == nil && fb.FuzzBlock {
+			data, _ := hex.DecodeString(fb.Hex)
+			f, _ := fuzzBlockBody(fb.Snapshot, data)
+			r.Eval(1)
+			return f
+		}
 		var cc sim.ChainCase
 		if err := json.Unmarshal(raw, &cc); err != nil {
 			return report.Failf("harness", "bad case: %v", err)
@@ -385,7 +394,7 @@ func TestCheck(t *testing.T) {
 	if r.Replay != "" {
 		return
 	}
-	r.Mandatory("too-young-exit-of-queued-validator", "family:HDR", "family:SIG", "family:RANDAO", "family:ATT", "family:ASL", "family:PSL", "family:DEP", "family:EXIT", "family:BLSCH", "family:SYNC", "family:PAY", "bytes:decodable-corruption", "benign-mutation-accepted")
+	r.Mandatory("too-young-exit-of-queued-validator", "family:HDR", "family:SIG", "family:RANDAO", "family:ATT", "family:ASL", "family:PSL", "family:DEP", "family:EXIT", "family:BLSCH", "family:SYNC", "family:PAY", "bytes:decodable-corruption", "bytes:differential-judged", "benign-mutation-accepted")
 	// ---- tour: validators that went through the activation queue, then mutations that depend on their age
 	nt := 2
 	if r.Thorough() {
@@ -411,6 +420,46 @@ func TestCheck(t *testing.T) {
 		cc := sim.TourDeposits(rt, []string{"DEP-PROOF", "DEP-PROOF-LEAFSIDE", "DEP-DATA-FIELD", "DEP-AMOUNT", "DEP-WRONG-INDEX", "DEP-COUNT-SHORT",
 			"DEP-REPLAY-PROCESSED", "DEP-COUNT-OVER", "PSL-VALIDATOR-NOT-YET-ACTIVE", "ASL-VALIDATOR-NOT-YET-ACTIVE", "BYTES"})
 		return cc, run(r, cc)
+	}) {
+		return
+	}
+	// ---- byte-level differential on fixed snapshots of every fork (the body of the native fuzz target
+	// FuzzBlockBytes, here driven by rapid edits of the valid block's encoding): both decoders must accept
+	// the bytes, then library verdict == reference verdict as-is and re-signed by the named proposer
+	if !r.Search(t, "bytes-differential", 103, r.N(1600, 24000), func(rt *rapid.T) (any, *report.Failure) {
+		ss, err := getSnaps()
+		if err != nil {
+			return nil, report.Failf("harness", "%v", err)
+		}
+		si := rapid.IntRange(0, len(ss)-1).Draw(rt, "snapshot")
+		b := append([]byte{}, ss[si].valid...)
+		for k := rapid.IntRange(1, 3).Draw(rt, "edits"); k > 0; k-- {
+			pos := rapid.IntRange(0, len(b)-1).Draw(rt, "pos")
+			switch rapid.IntRange(0, 3).Draw(rt, "edit") {
+			case 0:
+				b[pos] ^= 1 << uint(rapid.IntRange(0, 7).Draw(rt, "bit"))
+			case 1:
+				b[pos] = rapid.Byte().Draw(rt, "byte")
+			case 2: // small integer written over an 8-byte window (slots, indices, epochs, amounts)
+				if pos+8 <= len(b) {
+					binary.LittleEndian.PutUint64(b[pos:], uint64(rapid.IntRange(0, 40).Draw(rt, "small")))
+				}
+			default: // copy another 32-byte window over this one (roots, credentials)
+				src := rapid.IntRange(0, len(b)-1).Draw(rt, "src")
+				if pos+32 <= len(b) && src+32 <= len(b) {
+					copy(b[pos:pos+32], b[src:src+32])
+				}
+			}
+		}
+		c := &FuzzBlockCase{FuzzBlock: true, Snapshot: si, Hex: hex.EncodeToString(b)}
+		f, cl := fuzzBlockBody(si, b)
+		r.Eval(1)
+		r.Class("bytes-differential:" + cl)
+		if cl == "judged" {
+			r.Hit("bytes:differential-judged")
+			r.NonTrivial(fmt.Sprintf("%s|BYTESDIFF|%d", forkNames[ss[si].fork], len(b)%7))
+		}
+		return c, f
 	}) {
 		return
 	}
